@@ -22,8 +22,11 @@ SpiCase(c) ==
          LET ci == CalIdx(c.time, b, e)
              cs == {j \in 1..Len(c.cands) : c.cands[j].start = ci[1] /\ c.cands[j].stop = ci[2]} IN
          IF cs = {} THEN <<"SKIP", "no-candidate-for-contract-window", ToString(ci)>>
-         ELSE IF c.out = c.cands[CHOOSE j \in cs : TRUE].out THEN <<"ACCEPT", "", "">>
-         ELSE <<"REJECT", "WindowInclusiveBothEnds", ToString(ci)>>
+         ELSE LET cand == c.cands[CHOOSE j \in cs : TRUE] IN
+              IF c.out # cand.out THEN <<"REJECT", "WindowInclusiveBothEnds", ToString(ci)>>
+              \* the fitted sample is the set of steps in the window, wherever they sit on the axis (and whatever gaps precede them)
+              ELSE IF "alt" \in DOMAIN cand /\ cand.alt # cand.out THEN <<"REJECT", "FitSampleIsTheWindowsSteps", ToString(ci)>>
+              ELSE <<"ACCEPT", "", "">>
     ELSE LET npx == Len(c.out)
              badsub == {j \in 1..Len(c.subs) : c.subs[j].outcome # "ok"}
              bad == {pi \in (1..npx) \X (1..Len(c.time)) :
